@@ -257,15 +257,107 @@ def run_mixed(spelling):
     return not bad, obs
 
 
+FOREIGN_GRAMMAR = """
+Model: cs+=C accs+=Acc;
+C: 'c' name=ID;
+Acc: 'acc' name=ID o=[OBJECT] ('.' a=[OBJECT])?;
+"""
+
+
+def run_builtin(spelling, kind):
+    """references answered from the metamodel's builtins (objects of an earlier loaded library model) and by a provider
+    that returns objects which are no textX objects (the documented way to reference foreign models)"""
+    from textx import metamodel_from_str
+    from textx.scoping.providers import FQN
+
+    d = os.path.join(core.rundir(), "c34b-%d" % os.getpid())
+    os.makedirs(d, exist_ok=True)
+    obs = {"builtin": kind, "spelling": spelling}
+    bad = []
+    try:
+        if kind == "library":
+            lib_text = "p std { c int c str }"
+            with open(os.path.join(d, "std.m"), "w") as f:
+                f.write(lib_text)
+            mm0 = mm_for(False)
+            lib = mm0.model_from_file(os.path.join(d, "std.m"))
+            bi = {"int": resolve_name(lib, "std.int"), "str": resolve_name(lib, "std.str")}
+            mm = metamodel_from_str(GRAMMAR, textx_tools_support=True, builtins=bi)
+            mm.register_scope_providers({"*.*": FQN()})
+            own = spell("a.x", spelling)
+            text = "p a { c x r int } r %s rl str , %s , int r str" % (own, own)
+            obs["text"] = text
+            m = mm.model_from_str(text)
+            ax = resolve_name(m, "a.x")
+            exp = []
+            import re as _re
+
+            for mt in _re.finditer(r"\bint\b|\bstr\b|" + _re.escape(own), text):
+                if text[:mt.start()].rstrip().endswith("c"):
+                    continue
+                t = bi.get(mt.group(0), ax)
+                fn = lib._tx_filename if t is not ax else None
+                exp.append((mt.start(), mt.end(), fn, t._tx_position, t._tx_position_end))
+            got = [(r.ref_pos_start, r.ref_pos_end, r.def_file_name, r.def_pos_start, r.def_pos_end) for r in m._pos_crossref_list]
+            if got != exp:
+                bad.append(("crossref list", str(exp).replace(d, "<dir>"), str(got).replace(d, "<dir>")))
+            vals = [m.packages[0].refs[0].t, m.refs[0].t] + list(m.refs[1].ts) + [m.refs[2].t]
+            if [id(v) for v in vals] != [id(bi["int"]), id(ax), id(bi["str"]), id(ax), id(bi["int"]), id(bi["str"])]:
+                bad.append(("reference values",))
+        elif kind.startswith("root:"):
+            # a root match rule whose processor returns a value that is no textX object: nothing to list, but the load works
+            from decimal import Decimal
+
+            conv = {"decimal": Decimal, "list": lambda x: [x], "tuple": lambda x: (x,)}[kind[5:]]
+            mm = metamodel_from_str("Amount: /\\d+\\.\\d+/;", textx_tools_support=True)
+            mm.register_obj_processors({"Amount": conv})
+            m = mm.model_from_str(" 12.50 ")
+            obs["text"] = " 12.50 "
+            if m != conv("12.50"):
+                bad.append(("root value", repr(m)))
+        else:
+            foreign = {"name": "n1", "kind": "k1"}
+            mm = metamodel_from_str(FOREIGN_GRAMMAR, textx_tools_support=True, builtins={"foreign": foreign})
+
+            def attr_of(obj, attr, obj_ref):
+                return obj.o.get(obj_ref.obj_name) if isinstance(obj.o, dict) else getattr(obj.o, obj_ref.obj_name, None)
+            mm.register_scope_providers({"Acc.a": attr_of})
+            text = "c k acc A1 foreign.name acc A2 k acc A3 foreign.kind"
+            obs["text"] = text
+            m = mm.model_from_str(text)
+            if [(a.o if isinstance(a.o, dict) else a.o.name, a.a) for a in m.accs] != [(foreign, "n1"), ("k", None), (foreign, "k1")]:
+                bad.append(("reference values", str([(a.o, a.a) for a in m.accs])))
+            k = m.cs[0]
+            exp = []
+            import re as _re
+
+            for mt in _re.finditer(r"foreign|name|kind|(?<=A2 )k", text):
+                exp.append((mt.start(), mt.end(), None) + ((k._tx_position, k._tx_position_end) if mt.group(0) == "k" else (None, None)))
+            assert len(exp) == 5
+            got = [(r.ref_pos_start, r.ref_pos_end, r.def_file_name, r.def_pos_start, r.def_pos_end) for r in m._pos_crossref_list]
+            if got != exp:
+                bad.append(("crossref list", str(exp), str(got)))
+    except Exception as e:
+        bad = [("exception", "%s: %s" % (type(e).__name__, e))]
+    obs["failures"] = bad
+    return not bad, obs
+
+
 def work(arg):
     cases = arg
     u = Unit()
     for si, spelling, vec, two in cases:
         with watchdog(20):
-            ok, obs = run_mixed(spelling) if si == "mixed" else run_case(si, spelling, vec, two)
+            ok, obs = run_mixed(spelling) if si == "mixed" else run_builtin(spelling, vec) if si == "builtin" else run_case(si, spelling, vec, two)
         if ok is None:
             continue
         cid = [si, spelling, list(vec), two]
+        if si == "builtin":
+            u.case([si, spelling, vec], nontrivial=True, sample=obs)
+            u.transitions += 1
+            if not ok:
+                u.fail([si, spelling, vec], {"si": si, "spelling": spelling, "vec": vec, "two": two}, sig="builtin:" + str(obs["failures"][0][0])[:60], what=str(obs)[:700])
+            continue
         u.case(cid, nontrivial=sum(vec) > 0 or two, sample=obs if sum(vec) > 1 else None)
         u.transitions += 1
         u.count("spelling:" + spelling)
@@ -286,6 +378,10 @@ def run(ctx):
                 cases.append((si, sp, vec, True))  # two files: the vector postpones the references inside the imported file
     for sp in SPELL:
         cases.append(("mixed", sp, (0,), True))
+        cases.append(("builtin", sp, "library", False))
+    cases.append(("builtin", "tight", "foreign", False))
+    for k in ("decimal", "list", "tuple"):
+        cases.append(("builtin", "tight", "root:" + k, False))
     ctx.pmap(work, [cases[i:i + 6] for i in range(0, len(cases), 6)])
     return {
         "rule": "case = (model skeleton of %d, spelling of %s, postponement vector in {0..%d}^n with every round resolving something, one file | split into "
@@ -295,5 +391,8 @@ def run(ctx):
 
 
 def replay(p):
+    if p["si"] == "builtin":
+        r = run_builtin(p["spelling"], p["vec"])
+        return bool(r[0]), r[1]
     r = run_mixed(p["spelling"]) if p["si"] == "mixed" else run_case(p["si"], p["spelling"], tuple(p["vec"]), p["two"])
     return bool(r[0]), r[1]
